@@ -87,6 +87,39 @@ const EDGES: &[u32] = &[
     0xFFE5, 0xFFFD, 0xFFFF, 0x10000, 0x1FFFF, 0x20000, 0x2008A, 0x200CC, 0x27607, 0x2F8A6, 0x2FFFF, 0x10FFFF,
 ];
 
+/// all characters (sorted, without repetition) that the decoder of a legacy multi-byte encoding produces for a
+/// two-byte sequence `lead trail` (lead 0x81..=0xFE, trail 0x40..=0xFE; ISO-2022-JP: `ESC $ B` + 0x21..=0x7E twice);
+/// empty for the other encodings
+fn two_byte_repertoire(e: &'static Encoding) -> Vec<u32> {
+    use encoding_rs::*;
+    let multi = [BIG5, EUC_KR, EUC_JP, SHIFT_JIS, GBK, GB18030, ISO_2022_JP];
+    if !multi.contains(&e) {
+        return Vec::new();
+    }
+    let mut set = std::collections::BTreeSet::new();
+    let (lo, hi, tlo, thi) = if e == ISO_2022_JP { (0x21u8, 0x7Eu8, 0x21u8, 0x7Eu8) } else { (0x81, 0xFE, 0x40, 0xFE) };
+    for lead in lo..=hi {
+        for trail in tlo..=thi {
+            let bytes: Vec<u8> = if e == ISO_2022_JP { vec![0x1B, 0x24, 0x42, lead, trail] } else { vec![lead, trail] };
+            let (s, _) = e.decode_without_bom_handling(&bytes);
+            let mut it = s.chars();
+            if let (Some(ch), None) = (it.next(), it.next()) {
+                if ch != '\u{FFFD}' && ch as u32 >= 0x80 {
+                    set.insert(ch as u32);
+                }
+            } else {
+                // Big5: four pointers decode to a base character + combining mark
+                for ch in s.chars() {
+                    if ch != '\u{FFFD}' && ch as u32 >= 0x80 {
+                        set.insert(ch as u32);
+                    }
+                }
+            }
+        }
+    }
+    set.into_iter().collect()
+}
+
 pub fn generate(prop: &str, out: &mut Out, thorough: bool, seed: u64) -> bool {
     let encs: Vec<&'static Encoding> = if prop == "ENCCHAR" {
         ALL.to_vec()
@@ -119,6 +152,21 @@ pub fn generate(prop: &str, out: &mut Out, thorough: bool, seed: u64) -> bool {
         // boundary values of the source's own comparison constants
         for &c in source_constants().iter() {
             emit(out, &id, e, c);
+        }
+        // complete enumeration of the two-byte part of the index: every character the decoder produces for
+        // some two-byte sequence is encoded (all mapped characters of the legacy multi-byte encodings, every
+        // pointer incl. the first and last of each search range of data.rs and the characters that have more
+        // than one pointer; model-mutation audit: Big5 U+2550/U+255E/U+2561/U+256A, pointers 18962, 18991, 18997)
+        for (i, c) in two_byte_repertoire(e).into_iter().enumerate() {
+            emit(out, &id, e, c);
+            // the same low 16 bits in plane 1 / plane 2 (every eighth character): the BMP bodies work on `c as u16`
+            // and must never see an astral character (model-mutation audit IS24, KR06)
+            if i % 8 == 0 {
+                emit(out, &id, e, 0x10000 + c);
+                if i % 64 == 0 {
+                    emit(out, &id, e, 0x20000 + c);
+                }
+            }
         }
         // what the decoder can produce is what the encoder is most likely to map
         for _ in 0..1500 {
